@@ -43,7 +43,10 @@ def in_range(r, v):
 
 
 SNAKE_TABLE = {"Id": "id_", "Type": "type_", "ISRReplicas": "isr_replicas", "ISR": "isr", "InSyncReplicas": "in_sync_replicas",
-               "WhatIsQ": "what_is_q", "V3AndBelow": "v3_and_below"}
+               "WhatIsQ": "what_is_q", "V3AndBelow": "v3_and_below",
+               # a capital after a digit starts a new word only when a lower-case letter follows (pinned from the
+               # baseline behaviour of codegen/case.py, the doctests do not cover these)
+               "Crc32C": "crc32c", "Sha256ID": "sha256id", "Offset64K": "offset64k", "V0Port": "v0_port", "X509Cert": "x509_cert"}
 
 
 def snake(name: str) -> str:
